@@ -266,7 +266,8 @@ def drv_hooks(seed, combo, local, fail_teardown):
     rng = random.Random(seed)
     scn = scenario.gen(rng, n_min=2, n_max=5, groups_max=1, allow_time=False)
     scn["hooks"] = {k: bool(combo >> i & 1) for i, k in enumerate(("setup", "teardown", "nsetup", "nteardown"))}
-    scn["hook_rc"] = {"teardown": 1} if fail_teardown else {}
+    # fail_teardown: False / True (the teardown command exits 1) / "node" (the node teardown command exits 1)
+    scn["hook_rc"] = {"nteardown": 1} if fail_teardown == "node" else ({"teardown": 1} if fail_teardown else {})
     if local:
         scn["mode"] = "local"
     tr = run.run_hpc(scn, seed)
@@ -1147,11 +1148,49 @@ def check_C16(ctx):
     for combo in range(16):
         for local in (False, True):
             for k in range(n):
-                tasks.append(("hooks", (ctx.seed * 1000 + combo * 64 + k * 2 + int(local), combo, local, k % 3 == 1)))
+                tasks.append(("hooks", (ctx.seed * 1000 + combo * 64 + k * 2 + int(local), combo, local,
+                                        True if k % 3 == 1 else ("node" if k % 3 == 2 else False))))
     ctx.judge(run_tasks(tasks), "all 16 set/unset combinations of the four lifecycle commands, local and HPC mode, random DAGs")
     return ctx.finish(rule="16 combinations of setup/teardown/node-setup/node-teardown commands x {local, HPC} x random DAGs (2-5 jobs, "
-                           "passing and failing jobs, failing teardown command in a third of the runs) x random schedules; hook "
+                           "passing and failing jobs, failing teardown command in a third of the runs, failing node teardown command in "
+                           "another third) x random schedules; hook "
                            "commands are served by the controller and recorded with their environment")
+
+
+def resubmit_observations(traces):
+    """From traces of the real `resubmit-jobs` on completed submissions: (state before, last summary, flags) and what the
+    command wrote before it started submitting (first status of that process with the completion flag cleared)."""
+    obs = []
+    for tr in traces:
+        ev = tr["ev"]
+        jobs = tr["scn"]["jobs"]
+        for i, e in enumerate(ev):
+            if e.get("e") != "proc" or e.get("k") != "resubmit-jobs":
+                continue
+            before = next((x for x in reversed(ev[:i]) if x.get("e") == "status" and x.get("dir", "out") == "out"), None)
+            summ = next((x for x in reversed(ev[:i]) if x.get("e") == "summary"), None)
+            if before is None or summ is None or not before["complete"]:
+                continue
+            after = None
+            for x in ev[i + 1:]:
+                if x.get("e") == "proc" and x.get("k") == "resubmit-jobs":
+                    break
+                if x.get("e") == "status" and x.get("pid") == e["pid"] and not x["complete"]:
+                    after = x
+                    break
+            if after is None:
+                continue
+            out = {j: "missing" for j in jobs}
+            for r in summ["res"]:
+                out[r[0]] = "canceled" if r[2] == "canceled" else ("successful" if int(r[1]) == 0 else "failed")
+            fl = e.get("flags", [])
+            obs.append({"kind": "resubmit", "jobs": jobs, "blk": {j: list(tr["scn"]["blk"][j]) for j in jobs}, "out": out,
+                        "st": {j: before["st"][j] for j in jobs},
+                        "fl": {"failed": "--no-failed" not in fl, "missing": "--no-missing" not in fl, "successful": "--successful" in fl},
+                        "st2": {j: after["st"][j] for j in jobs}, "rem2": {j: list(after["rem"][j]) for j in jobs},
+                        "nsub2": after["nsub"], "ndone2": after["ndone"], "complete2": bool(after["complete"]),
+                        "rows2": list(after["rows"]), "driver": tr.get("driver")})
+    return obs
 
 
 def check_C13(ctx):
@@ -1161,9 +1200,27 @@ def check_C13(ctx):
     for v in ("quiet", "held-other", "held-same"):
         tasks += [("resubmit_incomplete", (s, kw, v)) for s in seeds(ctx, 40 if q else 500, 62)]
     tasks += small_resubmit_tasks(ctx, 500 if q else 6000)
-    ctx.judge(run_tasks(tasks), "completed submissions (incl. missing jobs) resubmitted once or twice with random flag combinations, "
+    ctx.model("Resubmit computation (all completed submissions <= 3 jobs x outcomes x flags)", "Resubmit", "Resubmit_machine.cfg",
+              workers=4)
+    # the known finding K2 as a property of the computation: without --missing a rerun job may stop waiting for a blocker
+    # that has no outcome -- TLC must find that counterexample (if it no longer does, the model or the finding changed)
+    neg = ctx.model("Resubmit computation: dropped blockers have outcomes also without --missing (expected to fail: K2)",
+                    "Resubmit", "Resubmit_k2.cfg", workers=2, expect_ok=False)
+    ctx.models[-1]["expected_violation"] = "R_DroppedBlockersHaveOutcomeAlways"
+    ctx.models[-1]["ok"] = "R_DroppedBlockersHaveOutcomeAlways is violated" in neg["out"]
+    if not ctx.models[-1]["ok"]:
+        raise tlc.TlcError("Resubmit_k2.cfg no longer shows the K2 counterexample:\n" + neg["out"][-1500:])
+    traces = run_tasks(tasks)
+    ctx.judge(traces, "completed submissions (incl. missing jobs) resubmitted once or twice with random flag combinations, "
               "with and without report generation; resubmit-jobs on incomplete submissions")
-    return ctx.finish(rule="random DAGs run to completion (40% with a batch failing at sbatch so that jobs are missing), then "
+    robs = resubmit_observations(traces)
+    ctx.extra["resubmit_observations"] = len(robs)
+    judge_obs(ctx, "Resubmit", "Resubmit_obs.cfg", robs,
+              {"ResetExactlyRerun", "RerunWaitsForRerunBlockers", "ResultsPrunedExactly", "CountersAfterReset"},
+              "what resubmit-jobs writes before it submits, against Resubmit.tla")
+    return ctx.finish(rule="Resubmit.tla: the selection / closure / blocker / reset computation checked by TLC for every completed "
+                           "submission of <= 3 jobs, and compared with what the real command wrote in every run below; "
+                           "random DAGs run to completion (40% with a batch failing at sbatch so that jobs are missing), then "
                            "resubmit-jobs with one of 8 flag combinations, once or twice, report generation on in 35% of the runs; "
                            "resubmit-jobs on an incomplete submission: nobody submitter / a compute node holds the role (run from "
                            "another host and from the same host)")
@@ -1188,8 +1245,10 @@ def run_obs(tasks):
     return res
 
 
-def judge_obs(ctx, module, cfg, obs, clauses, what, tasks=None):
-    """TLC validates the recorded (input, output) observations against the specification's operators."""
+def judge_obs(ctx, module, cfg, obs, clauses, what, tasks=None, only=False):
+    """TLC validates the recorded (input, output) observations against the specification's operators.
+    only=True: the module judges clauses of several properties; this check counts its own (`clauses`); a DRIFT verdict
+    (the model predicts other events than the code produced) is a conformance note, never a violation."""
     verdicts, st = funcs.validate(module, cfg, obs, shards=NCPU)
     ctx.tlc_states += st["tlc_states"]
     ctx.clauses.setdefault(ctx.prop, set()).update(clauses)
@@ -1199,6 +1258,14 @@ def judge_obs(ctx, module, cfg, obs, clauses, what, tasks=None):
         for c in clauses:
             ctx.cnt[c] = ctx.cnt.get(c, 0) + 1
         for c in v:
+            if only and c == "DRIFT":
+                conf = ctx.extra.setdefault("observation_conformance", {"drift": 0})
+                conf["drift"] += 1
+                if conf["drift"] <= 10:
+                    ctx.notes.append(f"model-drift ({module}): the model predicts other events than observed for " + json.dumps(o)[:300])
+                continue
+            if only and c not in clauses:
+                continue
             k = None
             for kf in ctx.known:
                 if kf["property"] == ctx.prop and c in kf["clauses"] and all(o.get(f) == val for f, val in kf.get("obs_has", {}).items()) \
@@ -1235,12 +1302,22 @@ def check_C20(ctx):
     # the four-way tally of results.json, on whole submissions (incl. missing and canceled jobs)
     kw = dict(n_min=2, n_max=6, groups_max=1)
     trs = run_tasks([("random_nodefaults", (s, kw)) for s in seeds(ctx, 120 if q else 1500, 91)])
-    mine = set(ctx.clauses.get("C20", set())) | {"TallyPartition"}
+    mine = set(ctx.clauses.get("C20", set())) | {"TallyPartition", "EventsLosslessInSummary"}
     ctx.judge(trs, "random submissions with failing, canceled and missing jobs (results.json tallies)", clauses=mine)
+    # events of whole submissions with report generation and periodic resource monitoring, across resubmissions: what the
+    # consolidated summary shows at the end against every line of the *events.log files
+    etasks = []
+    for i, s in enumerate(seeds(ctx, 8 if q else 60, 92)):
+        sc = families.scn("ABC", blk={"C": ["A"]} if i % 2 else {}, rc={"B": 1} if i % 3 == 0 else {},
+                          groups=[families.G(size=1 + i % 2, procs=2)], maxnodes=0, reports=True, monitor="periodic")
+        etasks.append(("resubmit_scn", (sc, s, [["--successful"] if i % 2 else ["--failed", "--missing"]])))
+    ctx.judge(run_tasks(etasks), "submissions with reports and periodic monitoring, resubmitted: consolidated events vs logs",
+              clauses=mine)
     return ctx.finish(rule="all sample sequences of length <=4 (thorough 5) over {0,1,2,3} fed to the real ResourceMonitorAggregator "
                            "(node and per-process statistics, sampler stubbed); random multisets of <=5 events over 2 names, 3 "
                            "timestamps, <=3 files written with the real StructuredLogEvent and consolidated twice with the real "
-                           "EventsSummary; results.json tallies of whole submissions; every observation validated by TLC against "
+                           "EventsSummary; results.json tallies of whole submissions; the consolidated event summary against the event "
+                           "logs at the end of resubmitted submissions (reports on, periodic monitoring); every observation validated by TLC against "
                            "Reports.tla / JadeMonitor.tla", exhaustive=False)
 
 
@@ -1252,6 +1329,7 @@ def check_C18(ctx):
     tasks += [("run_script", (f,)) for f in funcs.script_inputs()]
     tasks += [("run_script", (f, True)) for k, f in enumerate(funcs.script_inputs()) if k % (4 if q else 1) == 0]
     tasks += [("run_squeue", x) for x in funcs.squeue_inputs(rng, 300 if q else 5000)]
+    tasks += [("run_squeuecmd", x) for x in funcs.squeuecmd_inputs(rng, 200 if q else 4000)]
     tasks += [("run_submit", (c,)) for c in funcs.SUBMIT]
     obs = run_obs(tasks)
     judge_obs(ctx, "Slurm", "Slurm_obs.cfg", obs,
@@ -1260,7 +1338,9 @@ def check_C18(ctx):
               "retry loop / submission script / status decision / submit response", tasks=tasks)
     return ctx.finish(rule="all 2^9 set/unset combinations of the optional SLURM fields (real create_submission_script); every SLURM "
                            "state for the queried id alone and among other rows in 4 whitespace renderings plus random outputs of "
-                           "<=3 rows (real _get_statuses_from_output + AsyncHpcSubmitter.is_complete); 7 classes of sbatch answers "
+                           "<=3 rows (real _get_statuses_from_output + AsyncHpcSubmitter.is_complete), and the whole status path (real "
+                           "SlurmManager.check_statuses / check_status) against a scheduler that interprets the squeue command "
+                           "line incl. its -t/-j/-n filters; 7 classes of sbatch answers "
                            "(real SlurmManager.submit); all outcome sequences of a retried command for 0..4 (thorough 0..6) retries "
                            "with and without a listed permanent error (real run_command with a scripted process); validated by TLC "
                            "against Slurm.tla", exhaustive=True)
@@ -1268,7 +1348,7 @@ def check_C18(ctx):
 
 def check_C19(ctx):
     q = ctx.tier == "quick"
-    ctx.model("Launch tokenizer (all strings <=5 over 7 symbols)", "Launch", "Launch_machine.cfg", workers=8)
+    ctx.model("Launch tokenizer (all strings <=5 over 9 symbols)", "Launch", "Launch_machine.cfg", workers=8)
     rng = random.Random(ctx.seed)
     tasks = [("run_launch", x) for x in funcs.launch_inputs(5 if q else 6, rng, sample_last=3000 if q else 40000)]
     obs = run_obs(tasks)
@@ -1277,7 +1357,7 @@ def check_C19(ctx):
               {"WellFormedCommandLaunches", "ArgvIsShellSplit", "JadeArgumentsAppended", "LaunchEnvironment", "OwnStdioFiles",
                "ResultCarriesRealExitStatus"}, "job launch", tasks=tasks)
     return ctx.finish(rule="every command string of length <=4 and a sample of length 5 (thorough: all of length 5, sample of 6) over "
-                           "{a, c, space, ', \", backslash, $}, crossed by rotation with 4 legal job names (letters, digits, _ . -), the "
+                           "{a, c, space, tab, ', \", backslash, $, #}, crossed by rotation with 4 legal job names (letters, digits, _ . -), the "
                            "4 append_* combinations and exit codes incl. 0,1,2,127,128,255 and k*7 mod 256; executed on the real "
                            "GenericCommandParameters / generate_command / AsyncCliCommand.run+_complete / ResultsAggregator with "
                            "subprocess.Popen captured; validated by TLC against Launch.tla (Split = POSIX word splitting); ill-formed "
@@ -1337,6 +1417,42 @@ def liveness_extra(ctx):
                       maxb=3 if q else 4, maxuser=4 if q else 5)
 
 
+NODE_CLAUSES = {"C02": {"StartAfterBlockers"}, "C04": {"CanceledNeverRuns", "CanceledOnlyIf", "CanceledIff", "NotCanceledRuns"},
+                "C06": {"ProcsBound"}, "C01": {"OneLaunch"}}
+
+
+def node_queue_suite(ctx):
+    """NodeQueue.tla: one compute node at the grain of one iteration of _check_completions -- TLC explores every input of
+    the small space and every placement of the job exits (invariants, no dead end, termination under fairness); the same
+    space is executed on the real JobQueue + AsyncCliCommand along every exit schedule and each run is compared with
+    NodeQueue!Run and judged by the node-level clauses."""
+    q = ctx.tier == "quick"
+    from harness import nodequeue
+    from concurrent.futures import ThreadPoolExecutor
+    models = [("NodeQueue machine (all inputs <= 3 jobs, all exit placements)", "NodeQueue_machine.cfg"),
+              ("NodeQueue termination under fairness (all inputs <= 3 jobs)", "NodeQueue_live.cfg")]
+    if not q:
+        models.append(("NodeQueue machine (4 jobs, <= 1 failing, process limits 1/2/4)", "NodeQueue_machine4.cfg"))
+    inputs = nodequeue.inputs_small()
+    if not q:
+        rng = random.Random(ctx.seed + 5)
+        inputs += rng.sample(list(nodequeue.all_inputs(4, 1, [1, 2, 4])), 6000)
+    with ThreadPoolExecutor(max_workers=len(models)) as ex:      # TLC explores while the real queue is being driven
+        futs = [ex.submit(ctx.model, n, "NodeQueue", c, 4, None, 3000) for n, c in models]
+        lists = run_obs([("explore_nodequeue", (i,)) for i in inputs])
+        for f in futs:
+            f.result()
+    obs, tasks = [], []
+    for l in lists:
+        for o in l:
+            obs.append(o)
+            tasks.append(("run_nodequeue", (o["in"], o["sched"])))
+    ctx.extra["node_queue"] = {"inputs": len(inputs), "schedules": len(obs), "ended": sum(1 for o in obs if o["end"] == "done"),
+                               "stuck_or_error": sum(1 for o in obs if o["end"] != "done")}
+    judge_obs(ctx, "NodeQueue", "NodeQueue_obs.cfg", obs, NODE_CLAUSES[ctx.prop],
+              "one node: JobQueue + AsyncCliCommand along every exit schedule", tasks=tasks, only=True)
+
+
 def cancel_shapes_extra(ctx):
     """Every 3-job DAG x cancel flags x one failing job x placement (one node batch / one batch per job / two per batch)"""
     q = ctx.tier == "quick"
@@ -1359,6 +1475,7 @@ def cancel_shapes_extra(ctx):
             tasks.append(("scn", (scn, ctx.seed + 7 * i + s)))
     ctx.judge(run_tasks(tasks), "cancellation shapes: all 3-job DAGs x flags x failing job x placement")
     # the node-level queue of the model on the shapes where a flagged and an unflagged dependent share a failed blocker
+    node_queue_suite(ctx)
     ctx.impl_model("JadeImpl cancellation on the node and by a submitter",
                    [families.scn("ABC", blk={"B": ["A"], "C": ["A"]}, flag="B", rc={"A": 1},
                                  groups=[families.G(size=3, tryadd=True, procs=1)], maxnodes=0),
@@ -1383,12 +1500,13 @@ def order_extra(ctx):
                                   squeue_empty_skip=skip, faults=True)
                 tasks.append(("scn", (sc, ctx.seed + sd)))
     ctx.judge(run_tasks(tasks), "status queries answered with an empty listing while batches are active")
+    node_queue_suite(ctx)
 
 
 CHECKS["C02"] = make_protocol_check(14, extra=order_extra)     # dependency order also when jobs are rerun
 CHECKS["C09"] = make_protocol_check(15, extra=histories_extra)
 # C06 also under failing scheduler queries: the limit is stated for every instant, not only for fault-free runs
-CHECKS["C06"] = make_protocol_check(16, gen_kw=dict(squeue_faults=0.4, n_min=3))
+CHECKS["C06"] = make_protocol_check(16, gen_kw=dict(squeue_faults=0.4, n_min=3), extra=node_queue_suite)
 
 
 def main(argv=None):
